@@ -14,7 +14,12 @@ inductive Lit
   | int (i : Int)        -- LiteralKind::Int
   | half                 -- LiteralKind::Num(0.5), introduced by strength reduction
   | str (s : String)
+  | big (n : Int)        -- LiteralKind::BigInt
   deriving Repr, DecidableEq
+
+def Lit.isBig : Lit → Bool
+  | .big _ => true
+  | _ => false
 
 inductive UnOp | neg | plus | not | typeof | void | delete
   deriving Repr, DecidableEq
@@ -34,6 +39,7 @@ inductive Expr
   | comma (a b : Expr)
   | call (f : String) (arg : Expr)
   | assign (x : String) (e : Expr)
+  | paren (e : Expr)        -- `Expression::Parenthesized`: kept in the AST, so `(1 + 2) * 3` folds to `(3) * 3` only
   deriving Repr, DecidableEq
 
 inductive Stmt
@@ -91,7 +97,9 @@ def foldNode : Expr → Action
 /-- `StrengthReduction::reduce_expression` on one node -/
 def reduceNode : Expr → Action
   | .bin .div lhs (.lit (.int 2)) => .replace (.bin .mul lhs (.lit .half))
-  | .bin .exp (.lit l) (.lit (.int 2)) => .replace (.bin .mul (.lit l) (.lit l))
+  | .bin .exp (.lit l) (.lit (.int 2)) =>
+    -- `is_side_effect_free`: a literal that is not a BigInt (`10n ** 2` throws, `10n * 10n` does not)
+    if l.isBig then .keep else .replace (.bin .mul (.lit l) (.lit l))
   | _ => .keep
 
 /-- apply an action; returns (new node, changed?) -/
@@ -130,6 +138,10 @@ def walk (f : Expr → Action) : Expr → Expr × Bool
   | .assign x e =>
     let (e', c1) := walk f e
     let (r, c2) := applyAction (.assign x e') (f (.assign x e'))
+    (r, c1 || c2)
+  | .paren e =>
+    let (e', c1) := walk f e
+    let (r, c2) := applyAction (.paren e') (f (.paren e'))
     (r, c1 || c2)
 
 /-- `run_*_pass`: repeat the walk until nothing changes, at most `n` times -/
@@ -316,6 +328,7 @@ def eval : Expr → EState → Res Val
     (match eval e s with
      | .thrown s => .thrown s
      | .ok v s => .ok v { s with log := s.log ++ [.write x v], store := (x, v) :: s.store })
+  | .paren e, s => eval e s
 
 end Eval
 
